@@ -6,6 +6,7 @@ CONSTANTS
   Modes = {"Sign", "SignAndEncrypt"}
   Moves = {"damage"}
   Damages <- DamagesAll
+  Injects = {}
   Budget = 1
   MaxChunks = 0
   Sweeps <- NoSweep
